@@ -105,7 +105,7 @@ def run(ctx):
     ctx.require_events('Fitter.fit:post', 'interleave:previous-package', 'law-object:table-reassigned')
     ctx.require_regimes('limit:confidence=1', 'av_interior', 'av_clamped_lo', 'av_clamped_hi', 'lo_eq_hi', 'limit_violated',
                         'limit_satisfied', 'k0_band', 'style:v1', 'style:v2name', 'style:v2wav',
-                        'memmap_on', 'memmap_off', 'source:integer-containers', 'grid:thousands-of-models')
+                        'memmap_on', 'memmap_off', 'source:integer-containers', 'grid:thousands-of-models', 'conf:flag-not-lower-case-no')
     n_pkg = 8 if ctx.quick else 150
     n_src = 30 if ctx.quick else 60
     for ip in range(n_pkg):
@@ -117,7 +117,11 @@ def run(ctx):
             nbig = 9001
         elif not ctx.quick and ip == 5 and ctx.shard == 1:
             nbig = 70001
+        pkg.YESNO = ip          # how models.conf spells its flags: no / No / NO / n / N (the reader takes any case)
+        if ip % 5:
+            ctx.regime('conf:flag-not-lower-case-no')
         names, wav, filt, tgrid, pinfo = make_package(ctx, rng, d, n_models=nbig)
+        pkg.YESNO = 0
         if nbig:
             ctx.regime('grid:thousands-of-models')
         # law: sometimes leave some bands outside (k = 0)
